@@ -48,6 +48,48 @@ fn apply(tc: &TransferControl, op: &SOp) {
     }
 }
 
+/// The signalling operations a schedule draws from, relative to the initial state
+/// (window full: sent = s0 = window, acked = 0, one retained chunk [0, s0)).
+fn alphabet(s0: u64, len: u64) -> Vec<SOp> {
+    vec![
+        SOp::Ack(0, len.min(1)),   // releases too little
+        SOp::Ack(0, s0),           // releases everything
+        SOp::Ack(0, s0 + 5),       // hostile: beyond sent (capped)
+        SOp::Ack(1, s0),           // other file
+        SOp::Cancel,
+        SOp::Advance(1),
+        SOp::Resume(0, 0),         // accepted, frees nothing, stages a resume
+        SOp::Resume(0, s0),        // accepted at the trailing edge, frees the window
+        SOp::Resume(0, 1),         // mid-chunk: rejected
+        SOp::Resume(1, 0),         // wrong file: rejected
+        SOp::Sent(s0 + 2),
+    ]
+}
+
+/// All operation sequences of length 1..=depth over the alphabet, for both wait kinds.
+fn systematic(depth: usize) -> Vec<(&'static str, Vec<usize>)> {
+    let n = alphabet(4, 1).len();
+    let mut seqs: Vec<Vec<usize>> = vec![vec![]];
+    let mut out = vec![];
+    for _ in 0..depth {
+        let mut next = vec![];
+        for s in &seqs {
+            for i in 0..n {
+                let mut t = s.clone();
+                t.push(i);
+                next.push(t);
+            }
+        }
+        for kind in ["credit", "reconnect"] {
+            for t in &next {
+                out.push((kind, t.clone()));
+            }
+        }
+        seqs = next;
+    }
+    out
+}
+
 fn jitter(rng: &mut StdRng) {
     match rng.gen_range(0..6) {
         0 => {}
@@ -91,7 +133,11 @@ fn ready_in(events: &[String], kind: &str, len: u64) -> Option<bool> {
 pub fn run(a: &Args) -> i32 {
     let seed = a.u64("seed", 1);
     let n = a.usize("schedules", 500);
-    let timed_every = a.usize("timed-every", 10); // every k-th schedule is a deadline run
+    let timed_every = a.usize("timed-every", 10); // every k-th random schedule is a deadline run
+    // systematic part: every sequence of <= depth operations by ONE signaller after the waiter parked
+    // (each (state, operation) pair in which a wake-up could be missed is visited deterministically)
+    let sys = systematic(a.usize("systematic-depth", 2));
+    let n = n + sys.len();
     let mut out = util::NdJson::create(&a.req("out"));
     let mut rng = StdRng::seed_from_u64(seed);
     verif::enable(true);
@@ -105,8 +151,12 @@ pub fn run(a: &Args) -> i32 {
         if lost >= 3 {
             break; // enough evidence of a lost wake-up; do not spend 10 s on each further schedule
         }
-        let timed = timed_every > 0 && run % timed_every == timed_every - 1;
-        let kind = if rng.gen_bool(0.6) { "credit" } else { "reconnect" };
+        let sys_prog = sys.get(run);
+        let timed = sys_prog.is_none() && timed_every > 0 && run % timed_every == timed_every - 1;
+        let kind = match sys_prog {
+            Some((k, _)) => *k,
+            None => if rng.gen_bool(0.6) { "credit" } else { "reconnect" },
+        };
         let window: u64 = [4u64, 8, 64][rng.gen_range(0..3)];
         let len: u64 = rng.gen_range(1..=window / 2);
         let s0 = window; // window full: a credit waiter must block
@@ -120,9 +170,13 @@ pub fn run(a: &Args) -> i32 {
         tc.record_sent(s0);
 
         // signaller programmes
-        let nsig = if timed { rng.gen_range(0..=2) } else { rng.gen_range(1..=3) };
+        let nsig = if sys_prog.is_some() { 1 } else if timed { rng.gen_range(0..=2) } else { rng.gen_range(1..=3) };
         let mut progs: Vec<Vec<SOp>> = vec![];
-        for _ in 0..nsig {
+        if let Some((_, idx)) = sys_prog {
+            let alpha = alphabet(s0, len);
+            progs.push(idx.iter().map(|i| alpha[*i].clone()).collect());
+        }
+        for _ in 0..(if sys_prog.is_some() { 0 } else { nsig }) {
             let k = if rng.gen_bool(0.45) { 1 } else { 2 };
             let mut p = vec![];
             for _ in 0..k {
@@ -159,8 +213,8 @@ pub fn run(a: &Args) -> i32 {
         let far = Duration::from_secs(3600);
         let short = Duration::from_millis(rng.gen_range(20..80));
         let wait_for = if timed { short } else { far };
-        let waiter_first = rng.gen_bool(0.7);
-        let pre_delay = rng.gen_range(0..800u64);
+        let waiter_first = sys_prog.is_some() || rng.gen_bool(0.7);
+        let pre_delay = if sys_prog.is_some() { 600 } else { rng.gen_range(0..800u64) };
 
         let waiter = {
             let (tc, done, gate) = (tc.clone(), done.clone(), start_gate.clone());
@@ -197,6 +251,7 @@ pub fn run(a: &Args) -> i32 {
         let mut sigs = vec![];
         for (i, prog) in progs.iter().cloned().enumerate() {
             let (tc, gate) = (tc.clone(), start_gate.clone());
+            let settle = sys_prog.is_some();
             let mut r = StdRng::seed_from_u64(seed.wrapping_mul(7919).wrapping_add((run * 8 + i) as u64));
             sigs.push(std::thread::spawn(move || {
                 verif::set_tid(2 + i as u64);
@@ -205,7 +260,13 @@ pub fn run(a: &Args) -> i32 {
                     std::thread::sleep(Duration::from_micros(pre_delay));
                 }
                 for op in &prog {
-                    jitter(&mut r);
+                    if settle {
+                        // systematic schedules: let the waiter wake, re-check and park again between
+                        // operations, so that every operation meets a PARKED waiter
+                        std::thread::sleep(Duration::from_micros(500));
+                    } else {
+                        jitter(&mut r);
+                    }
                     apply(&tc, op);
                 }
             }));
